@@ -101,8 +101,10 @@ pub fn make_case(seed: u64, idx: u64, tier: Tier, restarts: bool) -> (Case, Rng)
     let prog = if idx % 5 == 4 {
         let which = r.below(6);
         let scale = match which {
-            3 | 4 => {
-                let s = if idx % 25 == 4 { tier.pick(40, 1100) as u32 } else { *r.pick(&[3u32, 31, 32, 33, 34, 40, 70]) };
+            // (1 = projection fan over one firewall, each projection with its own consumer: the
+            // fan crosses the chunking of the backward projection, 4 x available_parallelism)
+            1 | 3 | 4 => {
+                let s = if idx % 25 == 4 { tier.pick(40, 1100) as u32 } else { *r.pick(&[3u32, 31, 32, 33, 34, 40, 70, 130]) };
                 fan = s;
                 s
             }
